@@ -11,6 +11,8 @@ mod sas_lang;
 mod tests;
 mod text;
 pub(crate) mod token_type;
+#[cfg(feature = "verif")]
+pub mod verif;
 
 use bit_vec::BitVec;
 use buffer::{
@@ -188,6 +190,9 @@ impl Lexer<'_> {
         // We should always make sure to clear any checkpoints
         debug_assert!(self.checkpoint.is_none());
 
+        #[cfg(feature = "verif")]
+        verif::ev_checkpoint();
+
         self.checkpoint = Some(LexerCheckpoint {
             cursor: self.cursor.clone(),
             cur_token_byte_offset: self.cur_token_byte_offset,
@@ -200,11 +205,17 @@ impl Lexer<'_> {
 
     /// Clear the checkpoint, without rolling back
     fn clear_checkpoint(&mut self) {
+        #[cfg(feature = "verif")]
+        verif::ev_clear(self.checkpoint.is_some());
+
         self.checkpoint = None;
     }
 
     /// Rollback the lexer to the last checkpoint, clearing it in the process.
     fn rollback(&mut self) {
+        #[cfg(feature = "verif")]
+        let verif_before = (self.checkpoint.is_some(), self.buffer.token_count());
+
         if let Some(checkpoint) = self.checkpoint.take() {
             self.cursor = checkpoint.cursor;
             self.cur_token_byte_offset = checkpoint.cur_token_byte_offset;
@@ -220,6 +231,9 @@ impl Lexer<'_> {
             // Emit an error, we should not be here
             self.emit_error(ErrorKind::InternalErrorMissingCheckpoint);
         }
+
+        #[cfg(feature = "verif")]
+        verif::ev_rollback(verif_before.0, verif_before.1, self.buffer.token_count());
     }
 
     #[inline]
@@ -436,11 +450,17 @@ impl Lexer<'_> {
 
     #[inline]
     fn emit_error(&mut self, error: ErrorKind) {
+        #[cfg(feature = "verif")]
+        verif::tick_error(self.checkpoint.is_some());
+
         self.errors.push(self.prep_error_info_at_cur_offset(error));
     }
 
     #[inline]
     fn emit_error_info(&mut self, error_info: ErrorInfo) {
+        #[cfg(feature = "verif")]
+        verif::tick_error(self.checkpoint.is_some());
+
         self.errors.push(error_info);
     }
 
@@ -451,6 +471,14 @@ impl Lexer<'_> {
         let mut max_mode_stack_depth = 0usize;
 
         while let Some(next_char) = self.cursor.peek() {
+            #[cfg(feature = "verif")]
+            verif::tick_main(
+                &self.mode_stack,
+                next_char,
+                self.checkpoint.is_some(),
+                self.buffer.last_token_info().map(|t| t.token_type),
+            );
+
             self.lex_token(next_char);
 
             #[cfg(any(feature = "opti_stats", test))]
@@ -489,6 +517,15 @@ impl Lexer<'_> {
                 self.last_state = new_state;
             }
         }
+
+        #[cfg(feature = "verif")]
+        verif::snapshot_eoi(
+            &self.mode_stack,
+            self.macro_nesting_level,
+            &self.pending_stat_stack,
+            self.checkpoint.is_some(),
+            self.buffer.last_token_info().map(|t| t.token_type),
+        );
 
         self.finalize_lexing();
 
